@@ -220,7 +220,21 @@ def _piece(prog, ob, which, checks_on, qdir, timeout, cross, dlo, dhi, rec):
         good = zand(x_n.t < NPD, x_n.t >= 0, x_d.t * 1440 * MIN_NS + x_n.t == start * MIN_NS,
                     nxt.f[2].disc.t == 0 if nxt.f[2].disc.const() is None else T,
                     domr.t == (sets['dom'].size().t != 31), dowr.t == (sets['dow'].size().t != 7))
-        viol = [('loop_entry_state', zand(st['guard'], znot(good))), ('prologue_panics', zor(*[g for g, _, _ in ctx.panics]))]
+        # a wrong loop entry state is a violation of the property when it is observable: the loop starts too early at a minute
+        # that matches, starts too late past a minute that matches, or does not start on a whole minute
+        q0, r0 = z3.Int('x0q'), z3.Int('x0r'); ctx.side += [x_n.t == q0 * MIN_NS + r0, r0 >= 0, r0 < MIN_NS]
+        x_abs = x_d.t * 1440 + q0
+        sargs = [sets[k] for k in ORDER]
+        def matches(d_iv, n_iv):
+            return call_spec(ex, prog, 'spec_c17_matches', sargs + [domr, dowr, d_iv, n_iv])
+        wd, wn, c3 = sym_dt('w', dlo, dhi); cons += c3
+        wm = z3.Int('w_min'); cons += [wn.t == wm * MIN_NS]
+        wabs = wd.t * 1440 + wm
+        observable = zor(r0 != 0, zand(x_abs < start, matches(x_d, x_n).t), zand(x_abs > start, wabs >= start, wabs < x_abs, matches(wd, wn).t))
+        flags_ok = zand(domr.t == (sets['dom'].size().t != 31), dowr.t == (sets['dow'].size().t != 7))
+        viol = [('loop_entry_state_observably_wrong', zand(st['guard'], znot(good), observable)), ('restriction_flags', zand(st['guard'], znot(flags_ok))),
+                ('prologue_panics', zor(*[g for g, _, _ in ctx.panics]))]
+        rec['loop_entry_state_exact'] = None
         return finish(viol, st['guard'], ['now_d', 'now_secs', 'has_last', 'last_d', 'last_min'])
     # ---- one iteration from an arbitrary loop state: `next` is any whole minute, flags as the prologue leaves them
     xd, xn, c1 = sym_dt('next', dlo, dhi); cons += c1
